@@ -582,6 +582,21 @@ func c03CutExec(c *fw.Ctx, cas c03CutCase) (nontrivial bool) {
 			}
 		}
 		nontrivial = len(complete) > 0
+		// the next client of the same server is not affected by how the previous one left
+		k2 := s.DialSMTP()
+		k2.Bubble = true
+		d2 := &sys.SMTPDriver{K: k2}
+		g2 := d2.Greeting()
+		r1 := d2.Cmd("HELO next.test")
+		r2 := d2.Cmd("NOOP")
+		r3 := d2.Cmd("QUIT")
+		k2.Close()
+		if !g2.OK || g2.Code != 220 || r1.Class() != 2 || r2.Class() != 2 || r3.Code != 221 {
+			fail("next-connection-affected", fmt.Sprintf("the connection opened after the cut one did not get a normal dialogue: greeting %s, HELO %s, NOOP %s, QUIT %s", g2.String(), r1.String(), r2.String(), r3.String()))
+		}
+		if !k2.Ended() {
+			fail("wedge|session-does-not-end", "the session of the connection opened after the cut one never returned")
+		}
 	})
 	if leaked != "" {
 		c.Violate("wedge|goroutine-left-blocked", "after the cut a goroutine of the session is still blocked: "+leaked, cas)
